@@ -18,7 +18,7 @@ EXPLANATION = (
     "are checked before being returned; K3 every element of a sequence argument reaches assert_equivalent_dimension; K4 the "
     "comparison raises TypeError for number-vs-dimensional and UnitsError (a ValueError) for inequivalent dimensions on every "
     "non-escaping path, with angle erased on both operands; K5 the any-dimension set is exactly {0, oo, -oo, nan}; K6 the scale "
-    "factor reaches only is_number/is_any_dimension/error text; K7 QuantityVector checks every component.")
+    "factor reaches only is_number/is_any_dimension/error text; K7 QuantityVector checks every component; K8 its inferred dimension comes from a component that carries one.")
 ASSUMPTIONS = [
     "SymPy's dimsys_SI.equivalent_dims / is_dimensionless are correct on rational exponents",
     "inspect.signature(...).bind(*args, **kwargs) maps positional and keyword passing to the same parameter names",
@@ -581,6 +581,76 @@ def _k7(run: Run, w: World) -> None:
     run.sample({"function": f.qual})
 
 
+def _flat_conditions(conds: list) -> list:
+    """(test, polarity) pairs split through not / and (when true) / or (when false)."""
+    out = []
+
+    def add(t, pol):
+        if isinstance(t, ast.UnaryOp) and isinstance(t.op, ast.Not):
+            add(t.operand, not pol)
+        elif isinstance(t, ast.BoolOp) and ((isinstance(t.op, ast.And) and pol) or (isinstance(t.op, ast.Or) and not pol)):
+            for v in t.values:
+                add(v, pol)
+        else:
+            out.append((t, pol))
+    for t, pol in conds:
+        if isinstance(t, ast.AST):
+            add(t, pol)
+    return out
+
+
+def _k8(run: Run, w: World) -> None:
+    run.rule("K8", "the dimension QuantityVector infers for itself comes only from a component that carries one: not an angle slot, "
+             "not a zero/infinite/NaN scale factor (is_any_dimension), so the later component check cannot refuse on magnitude or order")
+    f = Fn(w, VEC, "QuantityVector.__init__")
+    sites = []
+    for st in ast.walk(f.fn):
+        if isinstance(st, ast.Assign) and len(st.targets) == 1 and isinstance(st.targets[0], ast.Name) and st.targets[0].id == "dimension" \
+                and isinstance(st.value, ast.Attribute) and st.value.attr == "dimension" and isinstance(st.value.value, ast.Name):
+            loops = [l for l in ast.walk(f.fn) if isinstance(l, ast.For) and any(x is st for b in l.body for x in ast.walk(b))]
+            if not loops:
+                raise AnalysisError(f"C04/K8: `{norm(st, 60)}` at line {st.lineno} is not inside a loop over the components")
+            lp = loops[-1]
+            conds = conditions_for(f.fn, st, stop=lp)
+            if conds is None:
+                raise AnalysisError(f"C04/K8: cannot locate `{norm(st, 60)}`")
+            sites.append((st, st.value.value.id, _flat_conditions(conds)))
+        elif isinstance(st, ast.Assign) and any(isinstance(t, ast.Name) and t.id == "dimension" for t in st.targets) \
+                and any(isinstance(x, (ast.GeneratorExp, ast.ListComp)) for x in ast.walk(st.value)):
+            for g in ast.walk(st.value):
+                if isinstance(g, (ast.GeneratorExp, ast.ListComp)) and isinstance(g.elt, ast.Attribute) and g.elt.attr == "dimension" \
+                        and isinstance(g.elt.value, ast.Name) and len(g.generators) == 1:
+                    sites.append((st, g.elt.value.id, _flat_conditions([(c, True) for c in g.generators[0].ifs])))
+    if not sites:
+        dflt = [d for a, d in zip(reversed(f.fn.args.kwonlyargs), reversed(f.fn.args.kw_defaults)) if a.arg == "dimension"]
+        if dflt and dflt[0] is None:
+            run.ob("K8", "no-inference:dimension-required")
+            run.sample({"function": f.qual, "inference": "none, dimension is a required argument"})
+            return
+        raise AnalysisError("C04/K8: no `dimension = <component>.dimension` inference found in QuantityVector.__init__ although `dimension` is optional")
+    for st, elem, conds in sites:
+        run.ob("K8", f"inference@{norm(st, 50)}")
+        anydim = angle = False
+        for t, pol in conds:
+            if isinstance(t, ast.Call) and dotted(t.func).split(".")[-1] == "is_any_dimension" and len(t.args) == 1 and pol is False \
+                    and isinstance(t.args[0], ast.Attribute) and t.args[0].attr == "scale_factor" and isinstance(t.args[0].value, ast.Name) \
+                    and t.args[0].value.id == elem:
+                anydim = True
+            if isinstance(t, ast.Call) and dotted(t.func).split(".")[-1] == "is_angle_component" and pol is False:
+                angle = True
+        missing = []
+        if not anydim:
+            missing.append(f"`not is_any_dimension({elem}.scale_factor)` (a floating point zero, an infinity or NaN carries no dimension; "
+                           "a comparison with 0 does not recognise them)")
+        if not angle:
+            missing.append("`not is_angle_component(...)` (the angle slot of a cylindrical or spherical vector has its own dimension)")
+        if missing:
+            run.violate("K8", f"{f.qual}:dimension-inference", f.mod, st,
+                        f"`{norm(st, 60)}` is reached without " + " and without ".join(missing)
+                        + ": a legitimate vector is refused depending on the magnitude or the order of its components")
+    run.sample({"function": f.qual, "inference_sites": len(sites)})
+
+
 def check(run: Run) -> None:
     w = World(run.src)
     _catalogue(run, w)
@@ -591,3 +661,4 @@ def check(run: Run) -> None:
     _k5(run, w)
     _k6(run, w)
     _k7(run, w)
+    _k8(run, w)
